@@ -85,6 +85,41 @@ func Isolation(name string, tags map[string]bool) *vtx.Profile {
 	}
 }
 
+// IsolationDual: one server with a UDP socket and a stream listener on the
+// same ip:port sharing one relay address generator; c1 (UDP) and c1t (stream)
+// have the same ip:port and user and differ only in the transport of their
+// 5-tuple; c2t is a stream client with c2's address. The stream clients may
+// also just go away (control connection closed).
+func IsolationDual(name string, tags map[string]bool) *vtx.Profile {
+	depth := 4
+	if rep.Thorough() {
+		depth = 5
+	}
+	cl := []string{"c1", "c1t", "c2t"}
+
+	return &vtx.Profile{
+		Name: name, Configs: []vtx.Config{{Dual: true}}, Clients: cl, Peers: []string{"A", "B"}, Chans: []uint16{N1}, Depth: depth, Drain: true, Tags: tags,
+		Menu: func(m *vtx.Model, now time.Time, _ int) []vtx.Event {
+			var e []vtx.Event
+			for _, c := range cl {
+				if m.Gone[c] {
+					continue
+				}
+				if m.Allocs[c] == nil {
+					e = append(e, E("alloc", c, 0))
+				} else {
+					e = append(e, vtx.Event{K: "refresh", C: c, L: 0}, E("perm", c, 0, "A"), E("chan", c, N1, "B"))
+				}
+				if c != "c1" {
+					e = append(e, vtx.Event{K: "close-control", C: c, L: -1})
+				}
+			}
+
+			return append(e, vtx.AdvanceMenu(m, now, ns1, nil)...)
+		},
+	}
+}
+
 // IsolationFamily: two clients whose source addresses differ only in address
 // family representation (10.0.0.2:4000 and [::10.0.0.2]:4000, the deprecated
 // IPv4-compatible form) plus a third on the same IP with another port.
